@@ -10,18 +10,19 @@ Emitter half and glue for flat documents whose values are scalars or lists of sc
 import Octave.Lemmas.ListLex
 import Octave.Lemmas.ListDocParse
 import Octave.Lemmas.FlatBridge
-namespace Octave
+namespace Octave.ListDoc
 open Lexer Emitter
 
 /-! ### the emitter -/
 
-def FScalar.EmitOK : FScalar → Prop
+/-- when the emitter spells a list item the way `FScalar.text` does: quoted exactly when `needs_quotes` says so. -/
+def ItemEmitOK : FScalar → Prop
   | .qstr s => needsQuotes s = true
   | .bare s => needsQuotes s = false
   | _ => True
 
-theorem emitValue_scalar (x : FScalar) (h : x.EmitOK) (ind : Nat) : emitValue x.value ind = some x.text := by
-  cases x <;> simp_all [FScalar.EmitOK, FScalar.value, FScalar.text, emitValue, emitStr]
+theorem emitValue_scalar (x : FScalar) (h : ItemEmitOK x) (ind : Nat) : emitValue x.value ind = some x.text := by
+  cases x <;> simp_all [ItemEmitOK, FScalar.value, FScalar.text, emitValue, emitStr]
 
 theorem emitFlatParts_cons (x : FScalar) (vs : List Value) (ind : Nat) :
     emitFlatParts (x.value :: vs) ind
@@ -42,14 +43,14 @@ def valAnnot : Value → Bool
   | _ => false
 
 /-- the item is a string of annotation shape `NAME<qualifier>` (quoted or not): it forces the multi-line layout. -/
-def FScalar.annot (x : FScalar) : Bool := valAnnot x.value
+def itemAnnot (x : FScalar) : Bool := valAnnot x.value
 
 theorem needsMultilineAux_cons (x : FScalar) (vs : List Value) (n : Nat) :
-    needsMultilineAux (x.value :: vs) n = (x.annot || needsMultilineAux vs (n + 1)) := by
-  cases x <;> simp [FScalar.value, FScalar.annot, valAnnot, needsMultilineAux]
+    needsMultilineAux (x.value :: vs) n = (itemAnnot x || needsMultilineAux vs (n + 1)) := by
+  cases x <;> simp [FScalar.value, itemAnnot, valAnnot, needsMultilineAux]
 
 theorem needsMultilineAux_items (items : List FScalar) : ∀ n,
-    needsMultilineAux (items.map FScalar.value) n = (items.any FScalar.annot || decide (n + items.length ≥ 3)) := by
+    needsMultilineAux (items.map FScalar.value) n = (items.any itemAnnot || decide (n + items.length ≥ 3)) := by
   induction items with
   | nil => intro n; simp [needsMultilineAux]
   | cons x r ih =>
@@ -60,12 +61,12 @@ theorem needsMultilineAux_items (items : List FScalar) : ∀ n,
     simp only [decide_eq_decide]; omega
 
 /-- `_needs_multiline` on a list of scalars: three or more items, or an annotation-shaped string among them. -/
-def needsMulti (items : List FScalar) : Bool := items.any FScalar.annot || decide (items.length ≥ 3)
+def needsMulti (items : List FScalar) : Bool := items.any itemAnnot || decide (items.length ≥ 3)
 
 theorem needsMultiline_items (items : List FScalar) : needsMultiline (items.map FScalar.value) = needsMulti items := by
   rw [needsMultiline, needsMultilineAux_items]; simp [needsMulti]
 
-theorem emitFlatParts_items (items : List FScalar) (h : ∀ x ∈ items, x.EmitOK) (ind : Nat) :
+theorem emitFlatParts_items (items : List FScalar) (h : ∀ x ∈ items, ItemEmitOK x) (ind : Nat) :
     emitFlatParts (items.map FScalar.value) ind = some (items.map FScalar.text) := by
   induction items with
   | nil => rfl
@@ -73,7 +74,7 @@ theorem emitFlatParts_items (items : List FScalar) (h : ∀ x ∈ items, x.EmitO
     rw [List.map_cons, emitFlatParts_cons, emitValue_scalar x (h x (by simp)), ih (fun y hy => h y (by simp [hy]))]
     rfl
 
-theorem emitMultiParts_items (items : List FScalar) (h : ∀ x ∈ items, x.EmitOK) (ind : Nat) :
+theorem emitMultiParts_items (items : List FScalar) (h : ∀ x ∈ items, ItemEmitOK x) (ind : Nat) :
     emitMultiParts (items.map FScalar.value) ind = some (items.map FScalar.text) := by
   induction items with
   | nil => rfl
@@ -106,7 +107,7 @@ theorem joinWith_multiTail (ind : Nat) (x : FScalar) (r : List FScalar) :
 
 /-- `emit_value` on a list of scalars: `[]`, the one-line layout, or the multi-line layout with two spaces — chosen by
 `needsMulti` (content only). -/
-theorem emitValue_list (items : List FScalar) (h : ∀ x ∈ items, x.EmitOK) :
+theorem emitValue_list (items : List FScalar) (h : ∀ x ∈ items, ItemEmitOK x) :
     emitValue (.list (items.map FScalar.value)) 0
       = some (if needsMulti items then multiText 2 items else inlineText items) := by
   cases items with
@@ -146,7 +147,7 @@ as `needs_quotes` decides, no bare word under `PATTERN` / `REGEX`); list items o
 def LLine.EmitOK (ln : LLine) : Prop :=
   match ln.v with
   | .scalar s => (FLine.mk ln.key s).EmitOK
-  | .list items => ∀ x ∈ items, x.EmitOK
+  | .list items => ∀ x ∈ items, ItemEmitOK x
 
 def LLine.node (ln : LLine) (l c : Nat) : Node := .assign ln.key ln.v.value l c [] none
 
@@ -209,8 +210,8 @@ open Octave.ListDocParse (AllWs HeadToks ListToks VLine isWsT vdocToks vdoc vmet
 
 /-! ### glue: the lexer's tokens are tokens the parser half reads -/
 
-theorem FScalar.tok_toP' (v : FScalar) (l c : Nat) : v.tok l c = v.toP.tok l c := by cases v <;> rfl
-theorem FScalar.val_toP' (v : FScalar) : v.toP.val = v.value := by cases v <;> rfl
+theorem scalar_tok_toP (v : FScalar) (l c : Nat) : v.tok l c = v.toP.tok l c := by cases v <;> rfl
+theorem scalar_val_toP (v : FScalar) : v.toP.val = v.value := by cases v <;> rfl
 
 theorem allWs_nil : AllWs [] := fun _ h => by cases h
 theorem allWs_nl (l c : Nat) : AllWs [tNewline l c] := fun t h => by
@@ -230,11 +231,11 @@ theorem headToks_inline (r : List FScalar) : ∀ (x : FScalar) (l c c' : Nat),
   | nil =>
     intro x l c c'
     have := HeadToks.last [] x.toP l c [] (tRb l c') allWs_nil allWs_nil rfl
-    simpa [inlineTailToks, FScalar.tok_toP'] using this
+    simpa [inlineTailToks, scalar_tok_toP] using this
   | cons y r ih =>
     intro x l c c'
     have := HeadToks.more [] x.toP l c (tComma l c') _ _ allWs_nil rfl (ih y l (c' + 1) (c' + 1 + y.text.length))
-    simpa [inlineTailToks, FScalar.tok_toP'] using this
+    simpa [inlineTailToks, scalar_tok_toP] using this
 
 theorem headToks_multi (ind : Nat) (r : List FScalar) : ∀ (x : FScalar) (ws : List Token) (l c l' c' : Nat), AllWs ws →
     HeadToks ((x :: r).map FScalar.toP) (ws ++ x.tok l c :: multiTailToks ind l' c' r) := by
@@ -242,12 +243,12 @@ theorem headToks_multi (ind : Nat) (r : List FScalar) : ∀ (x : FScalar) (ws : 
   | nil =>
     intro x ws l c l' c' hws
     have := HeadToks.last ws x.toP l c [tNewline l' c'] (tRb (l' + 1) 1) hws (allWs_nl _ _) rfl
-    simpa [multiTailToks, FScalar.tok_toP'] using this
+    simpa [multiTailToks, scalar_tok_toP] using this
   | cons y r ih =>
     intro x ws l c l' c' hws
     have := HeadToks.more ws x.toP l c (tComma l' c') _ _ hws rfl
       (ih y (tNewline l' (c' + 1) :: indToks ind (l' + 1)) (l' + 1) (1 + ind) (l' + 1) (1 + ind + y.text.length) (allWs_nl_ind _ _ _ _))
-    simpa [multiTailToks, FScalar.tok_toP'] using this
+    simpa [multiTailToks, scalar_tok_toP] using this
 
 /-- the lexer's tokens of a list value, in either layout, are a `ListToks`. -/
 theorem listToks_ok (lay : Layout) (l c : Nat) (items : List FScalar) :
@@ -302,7 +303,7 @@ theorem LLine.toV_ok (ln : LLine) (lay : Layout) (l : Nat) : (ln.toV lay l).OK l
   | scalar s =>
     have := vline_scalar_ok (tIdent key l 1) (tAssign l (1 + key.length)) (tNewline (l + 0) (1 + key.length + 2 + s.text.length)) key
       s.toP l (1 + key.length + 2) rfl rfl rfl rfl
-    rw [← FScalar.tok_toP', FScalar.val_toP'] at this
+    rw [← scalar_tok_toP, scalar_val_toP] at this
     exact this
   | list items =>
     have hv := LLine.toV_vtoks ⟨key, .list items⟩ lay l
@@ -312,7 +313,7 @@ theorem LLine.toV_ok (ln : LLine) (lay : Layout) (l : Nat) : (ln.toV lay l).OK l
       (tNewline (l + (FValue.list items).height lay) ((FValue.list items).endCol lay (1 + key.length + 2))) key
       (items.map FScalar.toP) _ _ hl rfl rfl rfl rfl
     have e : (items.map FScalar.toP).map FlatParse.Scalar.val = items.map FScalar.value := by
-      rw [List.map_map]; congr 1; funext x; exact FScalar.val_toP' x
+      rw [List.map_map]; congr 1; funext x; exact scalar_val_toP x
     rw [e, List.length_map] at this
     exact this
 
@@ -397,4 +398,4 @@ theorem toVLines_ok (ls : List LL) : ∀ l, ∀ v ∈ toVLines l ls, v.OK ((llin
       simp only [llinesToks, List.length_append]; omega
 
 
-end Octave
+end Octave.ListDoc
